@@ -20,3 +20,45 @@ DSA_STRIPE(int64_t)
 DSA_STRIPE(uint64_t)
 
 } // namespace dsa_driver
+
+// OnceFunction storage selection: a family of callables of various sizes / alignments, each wrapped in a
+// OnceFunction so that createOnceCallable / createOnceCallableImpl are instantiated for it.
+#include <dispenso/small_buffer_allocator.h>
+namespace dsa_driver {
+template <size_t Size, size_t Align>
+struct alignas(Align) Callable {
+  char pad[Size];
+  void operator()() const {}
+};
+template <size_t Size, size_t Align>
+void wrap() {
+  dispenso::OnceFunction f(Callable<Size, Align>{});
+  f();
+}
+void once_family() {
+  wrap<1, 1>();
+  wrap<8, 8>();
+  wrap<48, 16>();
+  wrap<56, 8>();
+  wrap<64, 64>();
+  wrap<57, 1>();
+  wrap<64, 8>();
+  wrap<128, 128>();
+  wrap<200, 8>();
+  wrap<256, 256>();
+  wrap<300, 4>();
+  wrap<512, 64>();
+}
+constexpr long dsa_w_once_sizeof = sizeof(dispenso::OnceFunction);
+constexpr long dsa_w_once_alignof = alignof(dispenso::OnceFunction);
+constexpr long dsa_w_once_inline_size = dispenso::detail::kOnceFunctionInlineSize;
+constexpr long dsa_w_ordinal_4 = static_cast<long>(dispenso::detail::getOrdinal(4));
+constexpr long dsa_w_ordinal_8 = static_cast<long>(dispenso::detail::getOrdinal(8));
+constexpr long dsa_w_ordinal_16 = static_cast<long>(dispenso::detail::getOrdinal(16));
+constexpr long dsa_w_ordinal_32 = static_cast<long>(dispenso::detail::getOrdinal(32));
+constexpr long dsa_w_ordinal_64 = static_cast<long>(dispenso::detail::getOrdinal(64));
+constexpr long dsa_w_ordinal_128 = static_cast<long>(dispenso::detail::getOrdinal(128));
+constexpr long dsa_w_ordinal_256 = static_cast<long>(dispenso::detail::getOrdinal(256));
+constexpr long dsa_w_max_small = static_cast<long>(dispenso::kMaxSmallBufferSize);
+} // namespace dsa_driver
+
